@@ -434,8 +434,6 @@ def run_history(ctx: Ctx, backend: str, hist: list[tuple], fixes: dict, tag: str
             op = ("inv",)
         if op[0] == "dropu" and op[1] not in dict(w.catalog()):
             continue                      # dropping a table that does not exist is outside the property
-        if op[0] == "complete" and backend == "sqlite":
-            continue                      # completeness_chart emits SQL SQLite cannot parse (loud, outside C18)
         if op[0] == "sbl":
             op = ("cluster", op[1])       # single best links needs source datasets; the catalog world is dedupe_only
         if w.named_predict and op[0] in ("acc_col", "err_col"):
@@ -523,6 +521,8 @@ def history_stage(ctx: Ctx, fixes: dict):
     for a in alpha:
         for tail in ([("del",)], [("inv",)]) if not ctx.quick else ([("del",)],):
             results.append(run_history(ctx, "duckdb", [a] + list(tail), fixes, "ex", cleanup_at_end=False))
+    # completeness_chart on SQLite (works since /repo 452d5274): always exercised, not only when the seeded stream draws it
+    results.append(run_history(ctx, "sqlite", [("predict",), ("complete",), ("profile",)], fixes, "ex"))
     # cache slots that point at user-owned tables, followed by every kind of operation that drops cache entries
     droppers = [("rtf", "first_name", 1), ("rtf", "surname", 2), ("inv",), ("del",), ("predict",), ("cluster", 0), ("profile",)]
     for slot, table in SLOT_TABLES.items():
